@@ -210,8 +210,7 @@ class Tr:
                     return v                     # never None: the default is dead
         if isinstance(e, ast.IfExp):
             test, swapped = canon_test(e.test)
-            if swapped:
-                e = ast.IfExp(test=test, body=e.orelse, orelse=e.body)
+            e = ast.IfExp(test=test, body=(e.orelse if swapped else e.body), orelse=(e.body if swapped else e.orelse))
             c = self.cond(e.test, st, sc)
             n0 = len(sc.reads)
             a = self.expr(e.body, st, sc)
@@ -555,6 +554,19 @@ class Tr:
             sym = {"Eq": "=", "NotEq": "≠", "Lt": "<", "LtE": "≤", "Gt": ">", "GtE": "≥"}.get(type(op).__name__)
             if sym is None:
                 raise Unsupported("comparison " + type(op).__name__)
+            # the result of `bytes.find` is -1 or an index: every way of asking "not found" / "found" is one canonical test
+            # (`Py.findI_ge` in Py/Ops.lean is the fact this rests on)
+            fl, fr = (left.lean or "").startswith("Py.findI "), (right.lean or "").startswith("Py.findI ")
+            if fl != fr and (right.const if fl else left.const) is not None:
+                c = right.const if fl else left.const
+                s_ = sym if fl else {"<": ">", "≤": "≥", ">": "<", "≥": "≤"}.get(sym, sym)     # as `find <s_> c`
+                notfound = (s_, c) in (("<", 0), ("≤", -1), ("=", -1))
+                found = (s_, c) in (("≥", 0), (">", -1), ("≠", -1))
+                if notfound or found:
+                    ft = x if fl else y
+                    parts.append(f"decide ((-1) {'=' if notfound else '≠'} {ft})")
+                    left = right
+                    continue
             if sym in ("=", "≠"):
                 x, y = sorted([x, y])              # symmetric: operands in text order
             elif sym in (">", "≥") and left.kind != "fix" and right.kind != "fix":
@@ -938,8 +950,7 @@ class Tr:
                 continue
             if isinstance(s, ast.If):
                 test, swapped = canon_test(s.test)
-                if swapped:
-                    s = ast.If(test=test, body=list(s.orelse), orelse=list(s.body))
+                s = ast.If(test=test, body=list(s.orelse if swapped else s.body), orelse=list(s.body if swapped else s.orelse))
                 c = self.cond(s.test, st, sc)
                 split = self.has_return(s.body) or self.has_return(s.orelse)
                 if not split:
@@ -1008,8 +1019,7 @@ class Tr:
                 self.assign_target(s.target, self.binop(s.op, cur, self.expr(s.value, st, sc)), st)
             elif isinstance(s, ast.If):
                 test, swapped = canon_test(s.test)
-                if swapped:
-                    s = ast.If(test=test, body=list(s.orelse), orelse=list(s.body))
+                s = ast.If(test=test, body=list(s.orelse if swapped else s.body), orelse=list(s.body if swapped else s.orelse))
                 c = self.cond(s.test, st, sc)
                 sta = self.pure_block(s.body, st, sc)
                 stb = self.pure_block(s.orelse, st, sc)
